@@ -160,8 +160,100 @@ def run_generic(ctx, schema, opcode, prop, n_quick, n_thorough, depth_quick, dep
                           {"expression": dg.show_expr(e), "env": [[n, v] for n, v in env], "case": c, "via": "impl Sum",
                            "implementation": dg.plain(da), "model": dg.plain(db),
                            "harness_cmd": "echo 'c %s' | harness/target/release/rlharness dual" % " ".join(str(x) for x in c)})
+    nbad += grid_stage(ctx, schema, opcode)
     for (env, e) in cases[:4]:
         ctx.sample(describe(env, e))
+    return nbad
+
+
+def _rel(p, q, tol):
+    if p == q or (p != p and q != q):
+        return True
+    if p != p or q != q or abs(p) == float("inf") or abs(q) == float("inf"):
+        return False
+    return abs(p - q) <= tol * max(abs(p), abs(q)) + 1e-300
+
+
+def grid_verdict(opcode, schema, a, ao, b):
+    """(what is wrong | None, decoded implementation, decoded model) for one grid case"""
+    s1, s2 = ["f", "dual", "vec"], ["f", "dual2", "vec", "mat", "dual", "dual"]
+    da, db, do = dg.decode(a, schema), dg.decode(b, schema), dg.decode(ao, s2 if opcode == 1 else s1)
+    what = None
+    if da[0] != db[0]:
+        what = "outcome: implementation %s, model %s" % (da[0], db[0])
+    elif da[0] == "ok":
+        ia, ib = da[1], db[1]
+        comps = [("plain value", ia[0][1], ib[0][1]), ("value", ia[1]["re"][1], ib[1]["re"][1])]
+        comps += [("derivative %d" % k, p[1], q[1]) for k, (p, q) in enumerate(zip(ia[2], ib[2]))]
+        if opcode == 2:
+            comps += [("second derivative %d" % k, p[1], q[1]) for k, (p, q) in enumerate(zip(ia[3]["data"], ib[3]["data"]))]
+        for nm, p, q in comps:
+            if not _rel(p, q, 1e-9):
+                what = "%s: implementation %r, model %r (relative difference %.2e)" % (nm, p, q, abs(p - q) / max(abs(p), abs(q), 1e-300))
+                break
+        if what is None and do[0] == "ok":
+            # the implementation alone: plain evaluation = value at both orders; first-order result = first-order part
+            io = do[1]
+            cross = [("value against the plain float evaluation", ia[1]["re"][1], ia[0][1]),
+                     ("value at the other order", ia[1]["re"][1], io[1]["re"][1])]
+            cross += [("derivative %d at the other order" % k, p[1], q[1]) for k, (p, q) in enumerate(zip(ia[2], io[2]))]
+            for nm, p, q in cross:
+                if not _rel(p, q, 1e-12):
+                    what = "%s: %r vs %r (relative difference %.2e; implementation alone)" % (nm, p, q, abs(p - q) / max(abs(p), abs(q), 1e-300))
+                    break
+        elif what is None and do[0] != da[0]:
+            what = "first-order and second-order evaluation end differently: %s vs %s" % (da[0], do[0])
+    return what, da, db
+
+
+def grid_stage(ctx, schema, opcode):
+    """EVERY FUNCTION ON A GRID OF ARGUMENTS, EACH COMPONENT TO 1e-9 OF ITS OWN SIZE: one function applied to a variable (and to
+    a product of two) at arguments from the far tails to the neighbourhood of zero - norm_cdf at -37 .. -6 .. +-0.02 .. 8, its
+    inverse at 1e-12 .. 1 - 1e-9, exp and log over 600 orders of magnitude, powers with integral, half-integral and
+    nearly-integral exponents.  No cancellation occurs in such an expression, so the value and every derivative of the
+    implementation must agree with the proved model to 1e-9 RELATIVE (the model's own float evaluation is within 1e-10 of the
+    implementation there, measured), however small the component; and - a test of the implementation alone - the value must
+    equal the plain float evaluation and the first-order result must equal the first-order part of the second-order result to
+    1e-12 relative (harness ops 1 and 2 on the same case)."""
+    x, y = ("var", "x"), ("var", "y")
+    cases = []
+    grids = {"ncdf": [-37.0, -20.0, -12.0, -8.0, -6.25, -6.0, -5.0, -3.0, -1.0, -0.0999, -0.07, -0.04, -0.02, -1e-3, 1e-3, 0.02, 0.04, 0.07,
+                      0.0999, 0.1, 0.5, 1.0, 3.0, 6.25, 8.5],
+             "nicdf": [1e-12, 1e-9, 1e-6, 1e-3, 0.01, 0.1, 0.3, 0.4999, 0.5000001, 0.52, 0.7, 0.99, 1 - 1e-6, 1 - 1e-9],
+             "exp": [-700.0, -50.0, -3.0, -1e-3, -1e-9, 1e-9, 1e-3, 0.5, 3.0, 50.0, 700.0],
+             "log": [1e-300, 1e-9, 1e-3, 0.5, 0.9999999, 1.0000001, 3.0, 1e9, 1e300],
+             "abs": [-1e-9, -2.5, 1e-9, 3.5]}
+    for t, vals in grids.items():
+        for v in vals:
+            cases.append(([("x", v)], (t, x)))
+            cases.append(([("x", v), ("y", 1.0)], (t, ("mul", x, y))))
+    for base in (1e-6, 0.05, 0.999999, 1.000001, 7.5, 20.0, 1e6):
+        for pw in (-2.0, -1.0, -0.5, 0.5, 1.0, 1.5, 2.0, 3.0, 2.0000005, 3.0 - 4e-7, -1.0 + 9e-7, 1.0 + 3e-7, 10.0):
+            cases.append(([("x", base)], ("pow", x, pw)))
+            cases.append(([("x", base)], ("powref", x, pw)))
+    for (a, b) in ((3.0, 7.0), (1e-8, 2.5), (1e9, 3.0), (0.1, 0.2), (-2.5, 1e-4)):
+        for t in ("add", "sub", "mul", "div"):
+            cases.append(([("x", a), ("y", b)], (t, x, y)))
+            cases.append(([("x", a), ("y", b)], (t + "f", x, b)))
+            cases.append(([("x", a), ("y", b)], ("f" + t, a, y)))
+    enc = [[opcode] + dg.enc_env(env) + dg.enc_expr(e) for env, e in cases]
+    other = 3 - opcode
+    impl = run_harness("dual", ["c " + " ".join(str(z) for z in c) for c in enc])
+    impl_o = run_harness("dual", ["c " + " ".join(str(z) for z in [other] + c[1:]) for c in enc])
+    model = coq_eval(RUNMOD, RUNFN, enc, ctx.work, shard=max(8, len(enc) // (NCPU * 2) + 1), tag="grid%d" % opcode)
+    nbad = 0
+    for (env, e), c, a, ao, b in zip(cases, enc, impl, impl_o, model):
+        ctx.evaluations += 1
+        ctx.count("function grid: " + e[0])
+        what, da, db = grid_verdict(opcode, schema, a, ao, b)
+        if da[0] == "ok":
+            ctx.nontriv(("grid", tuple(c)))
+        if what:
+            nbad += 1
+            ctx.violation("%s: %s" % (describe(env, e), what),
+                          {"expression": dg.show_expr(e), "env": [[n, v] for n, v in env], "case": c, "grid": True,
+                           "implementation": dg.plain(da), "model": dg.plain(db),
+                           "harness_cmd": "echo 'c %s' | harness/target/release/rlharness dual" % " ".join(str(z) for z in c)})
     return nbad
 
 
@@ -195,6 +287,14 @@ def replay(ctx, rp):
     build_harness()
     build_coq(["theories/Run/RunDual.vo"])
     c = rp["case"]
+    if rp.get("grid"):
+        sch = SCHEMA if c[0] == 1 else ["f", "dual2", "vec", "mat", "dual", "dual"]
+        a, ao = run_harness("dual", ["c " + " ".join(str(x) for x in c), "c " + " ".join(str(x) for x in [3 - c[0]] + list(c[1:]))])
+        b = coq_eval(RUNMOD, RUNFN, [c], ctx.work)[0]
+        what, da, db = grid_verdict(c[0], sch, a, ao, b)
+        print("replay %s: %s" % (rp.get("expression"), what or "agrees to 1e-9 relative in every component"))
+        ctx.cleanup()
+        return 1 if what else 0
     a = run_harness("dual", ["c " + " ".join(str(x) for x in c)])[0]
     cm = [c[0] - 30] + list(c[1:]) if c[0] > 30 else c          # ops 31 / 32: the model has one addition
     b = coq_eval(RUNMOD, RUNFN, [cm], ctx.work)[0]
